@@ -230,7 +230,15 @@ impl<'a> AnyCache<'a> {
             return None;
         }
 
-        let load_asset = || (typ.inner.load)(self, id);
+        // A panic while reloading must not kill the hot-reloading thread (a
+        // call to `hot_reload` may be waiting for its answer): it is handled
+        // as a failed reload.
+        let load_asset = || {
+            let load = std::panic::AssertUnwindSafe(|| (typ.inner.load)(self, id.clone()));
+            std::panic::catch_unwind(load).unwrap_or_else(|_| {
+                Err(Error::new(id.clone(), "panicked while reloading".into()))
+            })
+        };
         let (entry, deps) = if let Some(reloader) = self.reloader() {
             records::record(reloader, load_asset)
         } else {
